@@ -142,3 +142,23 @@ impl FieldCtx {
         (big(limbs) * &self.rinv) % &self.p
     }
 }
+
+/// Cached per-modulus context (construction needs a modular inversion).
+pub fn cached_ctx(modulus_limbs: &[u64]) -> std::sync::Arc<FieldCtx> {
+    use std::collections::HashMap;
+    use std::sync::{Arc, Mutex, OnceLock};
+    thread_local! {
+        static LOCAL: std::cell::RefCell<HashMap<Vec<u64>, Arc<FieldCtx>>> = std::cell::RefCell::new(HashMap::new());
+    }
+    static GLOBAL: OnceLock<Mutex<HashMap<Vec<u64>, Arc<FieldCtx>>>> = OnceLock::new();
+    if let Some(c) = LOCAL.with(|l| l.borrow().get(modulus_limbs).cloned()) {
+        return c;
+    }
+    let g = GLOBAL.get_or_init(|| Mutex::new(HashMap::new()));
+    let c = {
+        let mut g = g.lock().unwrap();
+        g.entry(modulus_limbs.to_vec()).or_insert_with(|| Arc::new(FieldCtx::new("", modulus_limbs))).clone()
+    };
+    LOCAL.with(|l| l.borrow_mut().insert(modulus_limbs.to_vec(), c.clone()));
+    c
+}
